@@ -458,8 +458,18 @@ func (g *generator) walkObject(schema *schemaparser.Schema) (ast.Type, error) {
 	}
 
 	// TODO: finish implementation
+	// walking a property can declare the definitions it refers to: the
+	// properties are walked in a fixed order.
+	names := make([]string, 0, len(schema.Properties))
+	for name := range schema.Properties {
+		names = append(names, name)
+	}
+	sort.Strings(names)
+
 	fields := make([]ast.StructField, 0, len(schema.Properties))
-	for name, property := range schema.Properties {
+	for _, name := range names {
+		property := schema.Properties[name]
+
 		fieldDef, err := g.walkDefinition(property)
 		if err != nil {
 			return ast.Type{}, fmt.Errorf("%s: %w", name, err)
@@ -470,11 +480,6 @@ func (g *generator) walkObject(schema *schemaparser.Schema) (ast.Type, error) {
 
 		fields = append(fields, field)
 	}
-
-	// To ensure consistent outputs
-	sort.Slice(fields, func(i, j int) bool {
-		return fields[i].Name < fields[j].Name
-	})
 
 	def := ast.NewStruct(fields...)
 	def.Default = unwrapJSONNumber(schema.Default)
